@@ -15,6 +15,8 @@ sbegin | send | tick <ns> | resetglobal
 inherit <n> <m> | <oracle>
 restore <n> <8 alive bits> <8 csv fail> <8 csv tfail> | <oracle>
 floor <g> <idx:n,...|-> | <oracle>
+reload <g>/<idx:n,...|->/<new:old,...|-> ... | <oracle>     (ControlPlane.InheritDialerHealthFrom)
+kcb <outbound> <typ> <alive> <isInit> <dryrun> <retired> <closed>  -> key=.. val=.. | unchanged
 typidx <typ>           -> idx=<Index()> udp=<0/1> data=<0/1>
 consts                 -> the model's constants
 key <outbound> <typ> <alive>   -> kernel key/value
@@ -33,11 +35,13 @@ def parseTyp? : String → Option Typ
   | "t4" => some .t4 | "t6" => some .t6 | "T4" => some .T4 | "T6" => some .T6
   | "d4" => some .d4 | "d6" => some .d6 | "u4" => some .u4 | "u6" => some .u6
   | "x4" => some .x4 | "x6" => some .x6 | "y4" => some .y4 | "y6" => some .y6
-  | "z4" => some .z4 | "z6" => some .z6 | _ => none
+  | "z4" => some .z4 | "z6" => some .z6 | "a4" => some .a4 | "a6" => some .a6
+  | "b4" => some .b4 | "b6" => some .b6 | _ => none
 
 def typStr : Typ → String
   | .t4 => "t4" | .t6 => "t6" | .T4 => "T4" | .T6 => "T6" | .d4 => "d4" | .d6 => "d6"
   | .u4 => "u4" | .u6 => "u6" | .x4 => "x4" | .x6 => "x6" | .y4 => "y4" | .y6 => "y6" | .z4 => "z4" | .z6 => "z6"
+  | .a4 => "a4" | .a6 => "a6" | .b4 => "b4" | .b6 => "b6"
 
 def parseInt? (s : String) : Option Int :=
   if s.startsWith "-" then (s.drop 1).toNat?.map fun n => -(Int.ofNat n) else s.toNat?.map Int.ofNat
@@ -80,6 +84,21 @@ def listFn {β : Type} (l : List β) (d : β) : Nat → β := fun i => l.getD i 
 def splitBar (ws : List String) : List String × List String :=
   (ws.takeWhile (· ≠ "|"), (ws.dropWhile (· ≠ "|")).drop 1)
 
+def natPairs? (s : String) : Option (List (Nat × Nat)) := do
+  let ps ← parsePairs? s
+  pure (ps.map fun p => (p.1, p.2.toNat))
+
+/-- `g/idx:n,.../new:old,...` -/
+def parseReloadGroup? (tok : String) : Option ReloadGroup :=
+  match tok.splitOn "/" with
+  | [g, fb, ps] => do
+    let g ← g.toNat?
+    let fbs ← natPairs? fb
+    let ps ← natPairs? ps
+    let f : Nat → Option Nat := fun i => match fbs.find? fun e => e.1 == i with | some e => some e.2 | none => none
+    pure ⟨g, f, ps⟩
+  | _ => none
+
 def parseEvent? (ws : List String) : Option Event :=
   let (hd, otoks) := splitBar ws
   match parseOracle? otoks with
@@ -105,6 +124,9 @@ def parseEvent? (ws : List String) : Option Event :=
       let f ← parseCsv? f; let t ← parseCsv? t
       let bs := bits.toList.map (· == '1')
       pure (.restore (← n.toNat?) ⟨listFn bs false, listFn f 0, listFn t 0⟩ o)
+    | "reload" :: gtoks => do
+      let gs ← gtoks.mapM parseReloadGroup?
+      pure (.reload gs o)
     | ["floor", g, fb] => do
       let ps ← parsePairs? fb
       let f : Nat → Option Nat := fun i =>
@@ -169,6 +191,13 @@ def handle (st : DState) (line : String) : DState × String :=
     | some ob, some t =>
       let kv := kernelWrite ob t.idx (a == "1")
       (st, s!"key={kv.1} val={kv.2}")
+    | _, _ => (st, "bad-op")
+  | ["kcb", ob, t, a, init, dry, ret, cl] =>
+    match ob.toNat?, parseTyp? t with
+    | some ob, some t =>
+      match kernelCallback (cl == "1") (ret == "1") (dry == "1") ob t.idx (a == "1") (init == "1") with
+      | some kv => (st, s!"key={kv.1} val={kv.2}")
+      | none => (st, "unchanged")
     | _, _ => (st, "bad-op")
   | ws =>
     match parseEvent? ws with
